@@ -520,14 +520,29 @@ def check_pool(r6, db, cfgname, sp, runs):
                 if ctx.key(n["args"][0], inline=False)[:2] != v[:2]:
                     why = "the value pushed into the pool is not the rank p"
                     continue
-                # the only admissible filter: skip the boss when include_boss is false
-                fa = at.get(f.cfg.pos1(j), frozenset())
-                base = at.get(f.cfg.pos1(f.nodes[L[0]]["init"]), frozenset()) if f.nodes[L[0]].get("init") is not None else frozenset()
-                extra = [x for x in fa if x not in base and key_contains(x, lambda y: y[:2] == v[:2]) and not (x[0] == "<" and x[1][:2] == v[:2])
-                         and not (x[0] == "!=" and key_contains(x, lambda y: y[0] == "mcall" and y[1] == "boost::mpi::communicator::rank"))
-                         and not (x[0] == "true" and x[1][0] == "op" and x[1][1] == "||" and bk in x[1][2:] and key_contains(x[1], lambda y: y[0] == "mcall" and y[1] == "boost::mpi::communicator::rank"))]
-                if extra:
-                    why = "ranks are enrolled only under the extra condition %s" % fact_str(extra[0])
+                # the only admissible filter: skip the boss when include_boss is false.  Decided path by path: every feasible
+                # path through one iteration that does not push p must have established `include_boss is false` and `p == comm.rank()`.
+                from pv import paths as P_
+                hdr_, plist_ = P_.loop_body_paths(f, L[0])
+                if not plist_:
+                    raise AnalysisBroken("_autorange_workers: the paths of the enrolment loop cannot be enumerated")
+                extra = None
+                isrank_ = lambda y: y[0] == "mcall" and y[1] == "boost::mpi::communicator::rank" and y[2] == ck
+                for pth in plist_:
+                    ids_ = P_.nodes_on_path(f, pth[1:])
+                    if j in ids_:
+                        continue
+                    pf_ = P_.path_facts(f, ctx, pth)
+                    if not P_.feasible(pf_):
+                        continue
+                    noboss = any(x == ("false", bk) or (x[0] == "==" and bk in x[1:] and ("lit", 0) in x[1:]) for x in pf_)
+                    isboss = any(x[0] == "==" and key_contains(x[1], isrank_) != key_contains(x[2], isrank_) and
+                                 (key_contains(x[1], lambda y: y[:2] == v[:2]) or key_contains(x[2], lambda y: y[:2] == v[:2])) for x in pf_)
+                    if not (noboss and isboss):
+                        extra = sorted(fact_str(x) for x in pf_ if key_contains(x, lambda y: y[:2] == v[:2]) and not (x[0] == "<" and x[1][:2] == v[:2]))
+                        break
+                if extra is not None:
+                    why = "a rank is left out of the pool on a path that is not `the boss, when include_boss is false` (conditions on that path: %s)" % ("; ".join(extra)[:200] or "none")
                     continue
                 good = True
     if good:
